@@ -4,7 +4,8 @@ Fault enumeration (K3) over a corpus produced by the real Writer (all widths x v
 single op, multi-segment with a lazily-zero tail, unreferenced trailing data, shared data in v0/v1,
 an assembled stl program, v3 with presets 0/9):
   (a) every strict prefix (a write torn at every byte),
-  (b) every single-field substitution of every header and segment-table field over an edge alphabet,
+  (b) every single-field substitution of every header and segment-table field over an edge alphabet, and every two-field
+      damage (+-1, +-2, bit 0) within one segment-table entry,
   (c) single-byte substitutions at every payload position,
   (d) every byte string of length <= 2.
 Oracle: Reader either loads or raises FlipJumpReadFjmException (no other exception, no hang, no
@@ -229,6 +230,25 @@ def work(task):
                 b = orig[:off] + val.to_bytes(size, 'little') + orig[off + size:]
                 judge(b, path, original_image, 'field', name, f'{fname}={val}', sieve, stats, measure=not big)
                 stats['fired'] += 1
+        # two damaged fields of one segment-table entry (a corruption that keeps one consistency rule may break another)
+        import itertools
+        small = [-2, -1, 1, 2, 'x1']
+        segs = {}
+        for fname, off, size in fields:
+            if fname.startswith('seg'):
+                segs.setdefault(fname.split('.')[0], []).append((fname, off, size))
+        if not big or len(segs) <= 4:
+            for entry in segs.values():
+                for (fa, oa, sa), (fb_, ob, sb) in itertools.combinations(entry, 2):
+                    ca, cb = int.from_bytes(orig[oa:oa + sa], 'little'), int.from_bytes(orig[ob:ob + sb], 'little')
+                    for da, db in itertools.product(small, small):
+                        va = (ca ^ 1 if da == 'x1' else ca + da) & ((1 << 64) - 1)
+                        vb = (cb ^ 1 if db == 'x1' else cb + db) & ((1 << 64) - 1)
+                        b = bytearray(orig)
+                        b[oa:oa + sa] = va.to_bytes(sa, 'little')
+                        b[ob:ob + sb] = vb.to_bytes(sb, 'little')
+                        judge(bytes(b), path, original_image, 'field', name, f'{fa}={va},{fb_}={vb}', sieve, stats, measure=False)
+                        stats['fired'] += 1
         sample = {'file': name, 'fields': [f[0] for f in fields]}
     elif fam == 'payload':
         positions = range(table_end, len(orig))
